@@ -1,5 +1,5 @@
 (* C15: facts about the schema_of terms and the fuelled validator. *)
-From VV.SERDE Require Import Serde Config CorrSchema SchemaOfTypes.
+From VV.SERDE Require Import Serde Config CorrSchema SchemaOfTypes SchemaStrict.
 
 (* `bounded` (DESIGN C15) is what a schemars schema cannot say: integers fit their Rust width
    (format: uint32 is an annotation).  Outside it schema-valid documents are rejected by the parser: *)
@@ -9,13 +9,15 @@ Definition w_varchar_too_long : json :=
                                 ("type", JObj [("kind", JStr "varchar"); ("length", JInt 4294967296)]);
                                 ("nullable", JBool true)]])].
 Lemma decode_of_valid_refuted :
-  exists j, valid schema_of_model j = Some true /\ decode_table j = None /\ known_C15_unbounded DTable j = true.
+  exists j, valid schema_of_model j = Some true /\ decode_table j = None /\ known_C15_unbounded DTable j = true
+            /\ nodup_doc j = true /\ svalid schema_of_model j = Some false.
 Proof. exists w_varchar_too_long. repeat split; vm_compute; reflexivity. Qed.
 
 (* an integral float is an "integer" for JSON Schema and not for serde *)
 Definition w_float_version : json := JObj [("version", JFloat "1"); ("actions", JArr [])].
 Lemma decode_of_valid_float_refuted :
-  exists j, valid schema_of_migration j = Some true /\ decode_plan j = None /\ known_C15_unbounded DPlan j = true.
+  exists j, valid schema_of_migration j = Some true /\ decode_plan j = None /\ known_C15_unbounded DPlan j = true
+            /\ nodup_doc j = true /\ svalid schema_of_migration j = Some false.
 Proof. exists w_float_version. repeat split; vm_compute; reflexivity. Qed.
 
 (* the documents the serialisers produce validate: checked here on a value that touches every
@@ -216,3 +218,13 @@ Proof.
   - rewrite Nat.add_0_r. exact H.
   - rewrite Nat.add_succ_r. apply valid_f_mono. exact IH.
 Qed.
+
+(* the hypotheses of decode_of_valid are satisfiable by a document touching every definition (and by its
+   written form with sorted keys and "$schema"); a repeated member alone takes a document out of them *)
+Lemma strictly_valid_example :
+  strictly_valid schema_of_migration (encode_plan ex_plan) = true
+  /\ strictly_valid schema_of_migration (file_form schema_url (encode_plan ex_plan)) = true
+  /\ strictly_valid schema_of_migration (JObj [("version", JInt 1); ("version", JInt 1); ("actions", JArr [])]) = false
+  /\ valid schema_of_migration (JObj [("version", JInt 1); ("version", JInt 1); ("actions", JArr [])]) = Some true
+  /\ decode_plan (JObj [("version", JInt 1); ("version", JInt 1); ("actions", JArr [])]) = None.
+Proof. repeat split; vm_compute; reflexivity. Qed.
